@@ -41,6 +41,10 @@ func c03Alphabet() []c03Letter {
 		{"x2out", func(D factom.FAAddress, s uint64, _ factom.FAAddress) kit.Tx {
 			return kit.Tx{From: D, Asset: "pUSD", Amount: 6 * s, To: []kit.Out{{Addr: B, Amount: 4 * s}, {Addr: AddrC, Amount: 2 * s}}}
 		}},
+		{"x3rep", func(D factom.FAAddress, s uint64, _ factom.FAAddress) kit.Tx {
+			// the same recipient named twice with different amounts, and the sender itself as one of the outputs
+			return kit.Tx{From: D, Asset: "pUSD", Amount: 8 * s, To: []kit.Out{{Addr: B, Amount: 4 * s}, {Addr: AddrC, Amount: s}, {Addr: B, Amount: 2 * s}, {Addr: D, Amount: s}}}
+		}},
 		{"self", func(D factom.FAAddress, s uint64, _ factom.FAAddress) kit.Tx { return kit.Transfer(D, "pUSD", 10*s, D) }},
 		{"burn", func(D factom.FAAddress, s uint64, burn factom.FAAddress) kit.Tx { return kit.Transfer(D, "pUSD", 3*s, burn) }},
 		{"usd>eur", func(D factom.FAAddress, s uint64, _ factom.FAAddress) kit.Tx { return kit.Conversion(D, "pUSD", 6*s, "pEUR") }},
